@@ -154,12 +154,13 @@ def run_slice(case, ctx):
     ctx.cls('brackets:%s' % (oc or 'default'))
 
 
-def model_stitch(series_rows, ubs, n, oc='(]'):
-    """series_rows: list of [(t, v)] ; returns mapping t -> tuple(row) and the multiplicity of each timestamp"""
+def model_stitch(series_rows, ubs, n, oc='(]', lbs=None):
+    """series_rows: list of [(t, v)] ; returns mapping t -> tuple(row) and the multiplicity of each timestamp.
+    lbs given: series i owns (lbs[i], ubs[i]] (ubs[i] None = unbounded); otherwise (ubs[i-1], ubs[i]]"""
     k = len(series_rows)
     out, count = {}, {}
     for i in range(k):
-        lb = ubs[i - 1] if i > 0 else None
+        lb = lbs[i] if lbs is not None else (ubs[i - 1] if i > 0 else None)
         ub = ubs[i]
         members = series_rows[i:i + n]
         width = len(members)
@@ -189,6 +190,8 @@ def run_stitch(case, ctx):
     arg_series = live[::-1] if rev else live
     arg_ubs = ubs[::-1] if rev else ubs
     ser_list, ub_list = list(arg_series), list(arg_ubs)
+    if case.get('bounds_as') in ('lb', 'both'):
+        return run_stitch_lb(case, ctx, live, srows, ubs, n, rev)
     st, res = ctx.call(df_slice, ser_list, None, ub_list, '(]', n) if case.get('explicit_oc') else ctx.call(df_slice, ser_list, ub=ub_list, n=n)
     unch = ub_list == list(arg_ubs) and len(ser_list) == len(arg_series) and all(a is b for a, b in zip(ser_list, arg_series))
     ctx.check('input_unmodified', unch, lambda: 'df_slice edited the caller\'s bound list / series list in place: %s -> %s' % (arg_ubs, ub_list))
@@ -247,12 +250,90 @@ def run_stitch(case, ctx):
         ctx.cls('stitch:empty_member')
 
 
+def run_stitch_lb(case, ctx, live, srows, pts, n, rev):
+    """the same stitch spelt with a list of LOWER bounds (series i owns (lb[i], lb[i+1]], the last one everything after) or with
+    both lists (series i owns (lb[i], ub[i]]); in decreasing order the lists and the series are all given reversed"""
+    import pandas as pd
+    from pyg_base import df_slice
+    k = len(live)
+    if case['bounds_as'] == 'lb':
+        lbs = list(pts)
+        ubs = lbs[1:] + [None]
+        l_arg, u_arg = (lbs[::-1] if rev else list(lbs)), None
+    else:
+        ubs = list(pts)
+        gaps = case.get('gaps') or [0] * k
+        step = datetime.timedelta(days=1) if case['grid'] == 'd' else datetime.timedelta(hours=1)
+        lbs = [min(ubs[0], pts[0] - step * gaps[0])] + [min(ubs[i], ubs[i - 1] + step * gaps[i]) for i in range(1, k)]
+        if any(a >= b for a, b in zip(lbs, lbs[1:])):
+            rev = False          # a list with two equal bounds has no direction of its own: given in increasing order only
+        l_arg, u_arg = (lbs[::-1], ubs[::-1]) if rev else (list(lbs), list(ubs))
+    s_arg = live[::-1] if rev else list(live)
+    keep_l, keep_u, keep_s = list(l_arg), (None if u_arg is None else list(u_arg)), list(s_arg)
+    st, res = ctx.call(df_slice, s_arg, l_arg, u_arg, '(]', n) if case.get('explicit_oc') else ctx.call(df_slice, s_arg, lb=l_arg, ub=u_arg, n=n)
+    ctx.check('input_unmodified', l_arg == keep_l and u_arg == keep_u and len(s_arg) == len(keep_s) and all(a is b for a, b in zip(s_arg, keep_s)),
+              lambda: 'df_slice edited the caller\'s bound lists / series list in place')
+    exp, cnt = model_stitch(srows, ubs, n, lbs=lbs)
+    what = 'df_slice(%d series, lb=%s, ub=%s%s, n=%d)' % (k, [u.strftime('%d %H') for u in lbs], [u and u.strftime('%d %H') for u in ubs] if u_arg is not None else None, ' (given in decreasing order)' if rev else '', n)
+    ctx.cls('stitch:bounds_as_%s%s' % (case['bounds_as'], '_decreasing' if rev else ''))
+    if st != 'ok' or not isinstance(res, (pd.Series, pd.DataFrame)):
+        ctx.ev('stitch_model'); ctx.fail('stitch_model', '%s gave %s %s' % (what, st, core.exc_str(res) if st != 'ok' else type(res)))
+        return
+    got = rows_of(res)
+    seen = {}
+    for t, r in got:
+        seen[t] = seen.get(t, 0) + 1
+    ctx.check('each_timestamp_at_most_once', all(c == 1 for c in seen.values()), lambda: '%s lists a timestamp more than once: %s' % (what, [t.strftime('%d %H') for t, c in seen.items() if c > 1][:5]))
+    gm = {}
+    for t, r in got:
+        gm.setdefault(t, r)
+    width = n if n > 1 else 1
+    ok = set(gm) == set(exp) and all(req(list(gm[t]) + [NAN] * (width - len(gm[t])), list(exp[t])[:max(width, len(gm[t]))]) for t in exp)
+    ctx.check('stitch_model', ok, lambda: '%s = %s\nmodel (series i owns (lb[i], ub[i]], column j from series i+j): %s\nmember indices %s' % (
+        what, [(t.strftime('%d %H'), r) for t, r in got][:12], [(t.strftime('%d %H'), r) for t, r in sorted(exp.items())][:12], [[t.strftime('%d %H') for t, _ in s_] for s_ in srows]))
+    allpts = {t for s_ in srows for t, _ in s_}
+    if any(u in allpts for u in lbs + [u for u in ubs if u is not None]):
+        ctx.mark_nontrivial(case)
+        ctx.cls('bound_on_index_point')
+
+
+def run_windows(case, ctx):
+    """one series, a list of lower and a list of upper bounds (the docstring's 'single timeseries, multiple filtering'): the rows of
+    window 0, then those of window 1, ... - each window the plain interval filter"""
+    import pandas as pd
+    from pyg_base import df_slice
+    grid = case['grid']
+    x = mk_ts(case['x'], grid)
+    before = rows_of(x)
+    lbs, ubs = [bound(b, grid) for b in case['lbs']], [bound(b, grid) for b in case['ubs']]
+    oc = case['oc']
+    eff = oc or '(]'
+    l_arg, u_arg = list(lbs), list(ubs)
+    st, res = ctx.call(df_slice, x, l_arg, u_arg, oc) if oc else ctx.call(df_slice, x, l_arg, u_arg)
+    keep = [(t, r) for lb, ub in zip(lbs, ubs) for t, r in before if inside(t, lb, ub, eff)]
+    ok = st == 'ok' and type(res) is type(x) and l_arg == lbs and u_arg == ubs
+    if ok:
+        got = rows_of(res)
+        ok = len(got) == len(keep) and all(a[0] == b[0] and req(a[1], b[1]) for a, b in zip(got, keep))
+    ctx.check('slice_rows_model', ok, lambda: 'df_slice(ts, lb=%s, ub=%s, %r) on index %s = %s %s ; model (window after window) keeps %s' % (
+        [str(b) for b in lbs], [str(b) for b in ubs], oc, [t.strftime('%d %H:%M') for t, _ in before], st,
+        [t.strftime('%d %H:%M') for t, _ in rows_of(res)] if st == 'ok' and hasattr(res, 'index') else res, [t.strftime('%d %H:%M') for t, _ in keep]))
+    ctx.check('input_unmodified', len(rows_of(x)) == len(before) and all(a[0] == b[0] and req(a[1], b[1]) for a, b in zip(rows_of(x), before)), lambda: 'input modified')
+    ctx.cls('slice:several_windows')
+    idxset = {t for t, _ in before}
+    if any(b in idxset for b in lbs + ubs):
+        ctx.mark_nontrivial(case)
+        ctx.cls('bound_on_index_point')
+
+
 def run_case(case, ctx):
     # some series are dated in the future (forecasts, expiry schedules): a missing bound must stay unbounded there too
     BASE['now'] = datetime.datetime(2150, 6, 1) if case.get('future') else T0
     try:
         if case['kind'] == 'stitch':
             return run_stitch(case, ctx)
+        if case['kind'] == 'windows':
+            return run_windows(case, ctx)
         run_slice(case, ctx)
         if case.get('tod') and case.get('twin'):
             # a second series with the same length and the same first/last stamp but different interior stamps
@@ -348,7 +429,24 @@ def gen_case(rng):
     pts = sorted(rng.sample(cands, k))
     ubs = [{'i': p, 'off': 0 if rng.random() < 0.8 else 0.5} for p in pts]
     n = rng.randint(1, k)
-    return {'kind': 'stitch', 'grid': grid, 'series': series, 'ubs': ubs, 'n': n, 'decreasing': rng.random() < 0.3, 'explicit_oc': rng.random() < 0.3, 'unslice': rng.random() < 0.7}
+    case = {'kind': 'stitch', 'grid': grid, 'series': series, 'ubs': ubs, 'n': n, 'decreasing': rng.random() < 0.3, 'explicit_oc': rng.random() < 0.3, 'unslice': rng.random() < 0.7}
+    r2 = rng.random()
+    if r2 < 0.12:
+        case['bounds_as'] = 'lb'
+    elif r2 < 0.24:
+        case['bounds_as'] = 'both'
+        case['gaps'] = [rng.choice([0, 0, 1, 2]) for _ in range(k)]
+    elif r2 < 0.32:
+        # one series cut by several windows (increasing, not overlapping)
+        ts = gen_index(rng, grid)
+        kk = rng.randint(2, 4)
+        cuts = sorted(rng.sample(range(-1, span + 1), 2 * kk))
+        if ts and rng.random() < 0.7:
+            cuts = sorted(set(cuts[:-2]) | set(rng.sample(ts, min(2, len(ts)))))
+            cuts = cuts[:2 * (len(cuts) // 2)]
+        return {'kind': 'windows', 'grid': grid, 'x': {'ts': ts, 'cols': [[float(next(ids)) for _ in ts]], 'frame': rng.random() < 0.3},
+                'lbs': [{'i': c, 'off': 0} for c in cuts[0::2]], 'ubs': [{'i': c, 'off': 0} for c in cuts[1::2]], 'oc': rng.choice(['()', '(]', '[)', '[]', None])}
+    return case
 
 
 def plan(tier, seed, n):
